@@ -11,6 +11,9 @@ use std::path::{Path, PathBuf};
 pub const C1: &str = include_str!("../../corpus/dirwalk/c1.sol");
 pub const C2: &str = include_str!("../../corpus/dirwalk/c2.sol");
 pub const C3: &str = include_str!("../../corpus/dirwalk/c3.sol");
+// witness files on which every detector fires (SafeMath below / above 0.8.0, ...): used for directed sibling pairs
+pub const W_OLD: &str = include_str!("../../corpus/witness/Old.sol");
+pub const W_NEW: &str = include_str!("../../corpus/witness/New.sol");
 
 pub fn abstract_patterns(cat: &str) -> [&'static str; 3] {
     match cat {
@@ -347,6 +350,8 @@ fn fill_bytes(entries: &mut Vec<Node>, texts: &BTreeMap<String, String>) {
 pub fn random(corpus_dir: &str, scratch: &str, count: usize, c16: bool, trace: &mut NdjsonWriter, out: &mut Outcome) {
     let mut rng = Rng::from_env(if c16 { 16 } else { 3 });
     let mut texts: BTreeMap<String, String> = base_contents();
+    texts.insert("w_old".to_string(), W_OLD.to_string());
+    texts.insert("w_new".to_string(), W_NEW.to_string());
     let mut files: Vec<_> = fs::read_dir(corpus_dir).map(|rd| rd.filter_map(|e| e.ok()).map(|e| e.path()).collect()).unwrap_or_default();
     files.sort();
     for f in files {
@@ -373,6 +378,37 @@ pub fn random(corpus_dir: &str, scratch: &str, count: usize, c16: bool, trace: &
             }
         }
         usable.insert(cat, (pats, ok_ids, Value::Object(res)));
+    }
+    // directed: every ordered pair of witness contents as siblings (flat, and the second one level down), with all
+    // patterns of the category co-selected in both orders -- a verdict must not depend on the sibling, on its
+    // position in the listing or on the co-selected patterns (C15 iii; also an instance of the union, C03)
+    for cat in cats {
+        let (pats, ids, res) = &usable[cat];
+        let wit: Vec<&str> = ["w_old", "w_new", "c1", "c2", "c3"].into_iter().filter(|w| ids.iter().any(|i| i == w)).collect();
+        for x in wit.iter() {
+            for y in wit.iter() {
+                if x == y {
+                    continue;
+                }
+                for nested in [false, true] {
+                    for rev in [false, true] {
+                        let mut sel = pats.clone();
+                        if rev {
+                            sel.reverse();
+                        }
+                        let fy = Node::File { name: "B.sol".to_string(), content_id: y.to_string(), bytes: vec![] };
+                        let mut entries = vec![
+                            Node::File { name: "A.sol".to_string(), content_id: x.to_string(), bytes: vec![] },
+                            if nested { Node::Dir { name: "sub".to_string(), entries: vec![fy] } } else { fy },
+                        ];
+                        fill_bytes(&mut entries, &texts);
+                        let mut used = serde_json::Map::new();
+                        collect_ids(&entries, res, &sel, &mut used);
+                        runner.run(cat, &sel, &entries, &Value::Object(used), c16, "pairs", trace, out);
+                    }
+                }
+            }
+        }
     }
     for i in 0..count {
         let cat = cats[i % 3];
